@@ -179,8 +179,14 @@ func (m *valueMaker) leaf(kind string, vc string) reflect.Value {
 	case "time":
 		ts := []time.Time{time.Date(2020, 1, 15, 13, 41, 0, 599000, time.UTC), time.Date(1985, 10, 26, 1, 20, 1, 0, time.UTC), time.Date(-50, 3, 15, 12, 0, 0, 0, time.UTC)}
 		if loc, err := time.LoadLocation("Europe/Berlin"); err == nil {
-			ts = append(ts, time.Date(2021, 7, 1, 8, 30, 0, 5, loc))
+			ts = append(ts, time.Date(2021, 7, 1, 8, 30, 0, 5, loc),
+				time.Date(2021, 10, 31, 0, 30, 0, 0, time.UTC).In(loc), // 02:30 CEST, the first of the two 02:30s of that night
+				time.Date(2021, 10, 31, 1, 30, 0, 0, time.UTC).In(loc)) // 02:30 CET, the second
 		}
+		// zones that are an offset and nothing else: what time.Parse makes of "+01:00", time.FixedZone
+		parsed, _ := time.Parse(time.RFC3339, "2020-01-15T13:41:00+01:00")
+		ts = append(ts, parsed, time.Date(2020, 1, 15, 13, 41, 0, 0, time.FixedZone("X", 5400)), time.Date(2020, 1, 15, 13, 41, 0, 0, time.FixedZone("", -34200)),
+			time.Date(2020, 7, 15, 13, 41, 0, 0, time.FixedZone("Europe/Berlin", 3600)), time.Date(2020, 1, 15, 13, 41, 0, 0, time.FixedZone("odd", 3615)))
 		v.Set(reflect.ValueOf(ts[m.next()%len(ts)]))
 	case "ctime":
 		v.Set(reflect.ValueOf(parseTimeKey(newSampler(int64(m.next())).timeK())))
@@ -438,8 +444,7 @@ func leafToken(kind string, v reflect.Value) string {
 	case "bytes":
 		return fmt.Sprintf("A:au8:%d:%s", v.Len(), hex.EncodeToString(v.Bytes()))
 	case "time":
-		ct := compact_time.AsCompactTime(v.Interface().(time.Time))
-		return "T:" + timeKey(ct)
+		return "T:" + timeKey(expectedCompactTime(v.Interface().(time.Time)))
 	case "ctime":
 		return "T:" + timeKey(v.Interface().(compact_time.Time))
 	case "bigint", "pbigint":
@@ -476,6 +481,26 @@ func leafToken(kind string, v reflect.Value) string {
 		return ratToken(new(big.Rat).SetInt64(i.Int()))
 	}
 	return "?" + kind
+}
+
+// expectedCompactTime: the compact time that denotes the Go time t. A location the time zone database
+// knows by that name (and that gives t back from its wall clock) is an area/location zone; any other
+// zone is its UTC offset; an offset that is not whole minutes leaves only the instant.
+func expectedCompactTime(t time.Time) compact_time.Time {
+	loc := t.Location()
+	if loc == time.UTC || loc == time.Local {
+		return compact_time.AsCompactTime(t)
+	}
+	if known, err := time.LoadLocation(loc.String()); err == nil && loc.String() != "" {
+		if time.Date(t.Year(), t.Month(), t.Day(), t.Hour(), t.Minute(), t.Second(), t.Nanosecond(), known).Equal(t) {
+			return compact_time.AsCompactTime(t)
+		}
+	}
+	_, off := t.Zone()
+	if off%60 != 0 {
+		return compact_time.AsCompactTime(t.UTC())
+	}
+	return compact_time.NewTimestamp(t.Year(), int(t.Month()), t.Day(), t.Hour(), t.Minute(), t.Second(), t.Nanosecond(), compact_time.TZWithMiutesOffsetFromUTC(off/60))
 }
 
 // eventClasses maps recorded events to the class names of GoVal.tla's Shape.
